@@ -142,3 +142,230 @@ class V1Cert:
                            e["tweak"].hex() if e.get("tweak") is not None else None)
             res[t] = verdict
         return res
+
+
+# ====================================================================== version 2 (SGX)
+import base64          # noqa: E402
+import datetime as _dt  # noqa: E402
+import struct           # noqa: E402
+
+from cryptography import x509                                     # noqa: E402
+from cryptography.x509.oid import NameOID                         # noqa: E402
+from cryptography.hazmat.primitives import hashes, serialization  # noqa: E402
+from cryptography.hazmat.primitives.asymmetric import ec as cec   # noqa: E402
+from cryptography.hazmat.primitives.asymmetric.utils import (     # noqa: E402
+    decode_dss_signature, encode_dss_signature)
+
+NOW = _dt.datetime(2026, 3, 1, 12, 0, 0, tzinfo=_dt.timezone.utc)
+P256_N = 0xFFFFFFFF00000000FFFFFFFFFFFFFFFFBCE6FAADA7179E84F3B9CAC2FC632551
+
+
+class FakeDatetime(_dt.datetime):
+    """Stands in for `datetime` in admin.certificate_v2 (the clock of validity checks)."""
+    @classmethod
+    def now(cls, tz=None):
+        return NOW if tz is not None else NOW.replace(tzinfo=None)
+
+
+def p256_key(k, curve=None, role=None):
+    """EC private key from an integer; `role` separates keys drawn for different purposes so
+    that equal integers (as the shrinker likes to produce) never give equal keys."""
+    curve = curve or cec.SECP256R1()
+    if role is not None:
+        k = int.from_bytes(hashlib.sha256(("%s:%d" % (role, int(k))).encode()).digest(), "big")
+    order = {"secp256r1": P256_N}.get(curve.name)
+    if order is None:
+        order = 2 ** (curve.key_size - 2)
+    return cec.derive_private_key((int(k) % (order - 1)) + 1, curve)
+
+
+def pub_raw64(priv_or_pub):
+    pub = priv_or_pub.public_key() if hasattr(priv_or_pub, "public_key") else priv_or_pub
+    nums = pub.public_numbers()
+    return nums.x.to_bytes(32, "big") + nums.y.to_bytes(32, "big")
+
+
+WINDOWS = {
+    "valid": (-86400, 86400), "expired": (-172800, -1), "not-yet": (1, 172800),
+    "ends-now": (-86400, 0), "starts-now": (0, 86400), "long": (-10 ** 8, 10 ** 8),
+}
+
+
+def make_cert(subject_cn, subject_pub, issuer_cn, issuer_priv, window="valid", serial=1):
+    nb, na = WINDOWS[window]
+    b = (x509.CertificateBuilder()
+         .subject_name(x509.Name([x509.NameAttribute(NameOID.COMMON_NAME, subject_cn)]))
+         .issuer_name(x509.Name([x509.NameAttribute(NameOID.COMMON_NAME, issuer_cn)]))
+         .public_key(subject_pub)
+         .serial_number(serial)
+         .not_valid_before(NOW + _dt.timedelta(seconds=nb))
+         .not_valid_after(NOW + _dt.timedelta(seconds=na)))
+    return b.sign(issuer_priv, hashes.SHA256())
+
+
+def cert_der(cert):
+    return cert.public_bytes(serialization.Encoding.DER)
+
+
+def cert_pem(cert):
+    return cert.public_bytes(serialization.Encoding.PEM)
+
+
+def der_to_b64(der):
+    return base64.b64encode(der).decode("ascii")
+
+
+def sign_p256(priv, message):
+    return priv.sign(message, cec.ECDSA(hashes.SHA256()))
+
+
+def der_sig_to_raw64(der):
+    r, s = decode_dss_signature(der)
+    return r.to_bytes(32, "big") + s.to_bytes(32, "big")
+
+
+def raw64_to_der(raw):
+    return encode_dss_signature(int.from_bytes(raw[:32], "big"), int.from_bytes(raw[32:], "big"))
+
+
+def report_body(fields):
+    """sgx_report_body_t (384 bytes) from a dict of byte strings / ints."""
+    f = fields
+    return (f["cpusvn"] + struct.pack("<I", f["miscselect"]) + bytes(12) + f["isvextprodid"] +
+            struct.pack("<QQ", f["flags"], f["xfrm"]) + f["mrenclave"] + bytes(32) +
+            f["mrsigner"] + bytes(32) + f["configid"] +
+            struct.pack("<HHH", f["isvprodid"], f["isvsvn"], f["configsvn"]) + bytes(42) +
+            f["isvfamilyid"] + f["report_data"])
+
+
+def quote_header(h):
+    return (struct.pack("<HHIHH", h["version"], h["sign_type"], h["tee_type"], h["qe_svn"],
+                        h["pce_svn"]) + h["uuid"] + h["user_data"])
+
+
+def verify_p256_independent(pub_raw, message, sig_der):
+    try:
+        nums = cec.EllipticCurvePublicNumbers(int.from_bytes(pub_raw[:32], "big"),
+                                              int.from_bytes(pub_raw[32:], "big"),
+                                              cec.SECP256R1())
+        nums.public_key().verify(sig_der, message, cec.ECDSA(hashes.SHA256()))
+        return True
+    except Exception:
+        return False
+
+
+def verify_issuer_independent(subject_der, issuer_der):
+    """X.509 issuer signature with the `ecdsa` package (the code under test uses cryptography)."""
+    try:
+        sub = x509.load_der_x509_certificate(subject_der)
+        iss = x509.load_der_x509_certificate(issuer_der)
+        spki = iss.public_key().public_bytes(serialization.Encoding.DER,
+                                             serialization.PublicFormat.SubjectPublicKeyInfo)
+        vk = ecdsa.VerifyingKey.from_der(spki)
+        return bool(vk.verify(sub.signature, sub.tbs_certificate_bytes, hashfunc=hashlib.sha256,
+                              sigdecode=sigdecode_der))
+    except Exception:
+        return False
+
+
+def in_window(cert_der_bytes):
+    try:
+        c = x509.load_der_x509_certificate(cert_der_bytes)
+        return c.not_valid_before_utc <= NOW <= c.not_valid_after_utc
+    except Exception:
+        return False
+
+
+# ---------------------------------------------------------------------- whole v2 certificates
+
+X509_NAMES = ["quoting_enclave", "platform_ca", "ca2"]     # leaf first
+
+
+def default_rb(seed_bytes, report_data):
+    h = hashlib.sha512(seed_bytes).digest() * 4
+    return {"cpusvn": h[:16], "miscselect": int.from_bytes(h[16:20], "big"),
+            "isvextprodid": h[20:36], "flags": int.from_bytes(h[36:44], "big"),
+            "xfrm": int.from_bytes(h[44:52], "big"), "mrenclave": h[52:84],
+            "mrsigner": h[84:116], "configid": h[116:180],
+            "isvprodid": int.from_bytes(h[180:182], "big"),
+            "isvsvn": int.from_bytes(h[182:184], "big"),
+            "configsvn": int.from_bytes(h[184:186], "big"), "isvfamilyid": h[186:202],
+            "report_data": report_data}
+
+
+class V2Cert:
+    """A genuine SGX attestation certificate built from integers and byte strings.
+
+    spec keys: root, inter (list of 0..2 ints), leaf, att (ints -> P-256 keys), windows (dict
+    cert name -> window name), auth (bytes), custom (bytes), seed (bytes), rd_tail_q/rd_tail_a
+    (32-byte tails of the two report_data fields)
+    """
+
+    def __init__(self, spec):
+        s = spec
+        self.spec = s
+        self.keys = {"sgx_root": p256_key(s["root"], role="root"),
+                     "quoting_enclave": p256_key(s["leaf"], role="leaf"),
+                     "attestation": p256_key(s["att"], role="att")}
+        inter = list(s.get("inter", []))
+        self.chain = ["quoting_enclave"] + X509_NAMES[1:1 + len(inter)]     # leaf .. top
+        for nm, k in zip(self.chain[1:], inter):
+            self.keys[nm] = p256_key(k, role=nm)
+        self.parent = {}
+        for i, nm in enumerate(self.chain):
+            self.parent[nm] = self.chain[i + 1] if i + 1 < len(self.chain) else "sgx_root"
+        self.parent["attestation"] = "quoting_enclave"
+        self.parent["quote"] = "attestation"
+        w = s.get("windows", {})
+        self.root_cert = make_cert("root", self.keys["sgx_root"].public_key(), "root",
+                                   self.keys["sgx_root"], w.get("sgx_root", "long"))
+        self.certs = {}
+        for nm in self.chain:
+            self.certs[nm] = cert_der(make_cert(nm, self.keys[nm].public_key(),
+                                                self.parent[nm], self.keys[self.parent[nm]],
+                                                w.get(nm, "valid"), serial=7))
+        att_pub = pub_raw64(self.keys["attestation"])
+        self.auth = s["auth"]
+        self.custom = s["custom"]
+        rd_a = hashlib.sha256(att_pub + self.auth).digest() + s.get("rd_tail_a", bytes(32))
+        self.qe_rb_fields = default_rb(b"qe" + s.get("seed", b""), rd_a)
+        self.qe_rb = report_body(self.qe_rb_fields)
+        rd_q = hashlib.sha256(self.custom).digest() + s.get("rd_tail_q", bytes(32))
+        self.q_rb_fields = default_rb(b"quote" + s.get("seed", b""), rd_q)
+        sd = hashlib.sha256(b"hdr" + s.get("seed", b"")).digest() * 2
+        self.q_hdr = {"version": 3, "sign_type": 2, "tee_type": 0,
+                      "qe_svn": int.from_bytes(sd[:2], "big"),
+                      "pce_svn": int.from_bytes(sd[2:4], "big"), "uuid": sd[4:20],
+                      "user_data": sd[20:40]}
+        self.quote = quote_header(self.q_hdr) + report_body(self.q_rb_fields)
+        self.att_key = b"\x04" + att_pub
+        self.sig_att = sign_p256(self.keys["quoting_enclave"], self.qe_rb)
+        self.sig_quote = sign_p256(self.keys["attestation"], self.quote)
+
+    def elements(self):
+        els = [
+            {"name": "quote", "type": "sgx_quote", "message": self.quote.hex(),
+             "custom_data": self.custom.hex(), "signature": self.sig_quote.hex(),
+             "signed_by": "attestation"},
+            {"name": "attestation", "type": "sgx_attestation_key", "message": self.qe_rb.hex(),
+             "key": self.att_key.hex(), "auth_data": self.auth.hex(),
+             "signature": self.sig_att.hex(), "signed_by": "quoting_enclave"},
+        ]
+        for nm in self.chain:
+            els.append({"name": nm, "type": "x509_pem", "message": der_to_b64(self.certs[nm]),
+                        "signed_by": self.parent[nm]})
+        return els
+
+    def to_dict(self):
+        return {"version": 2, "targets": ["quote"], "elements": self.elements()}
+
+    def root_element_map(self):
+        return {"name": "sgx_root", "message": der_to_b64(cert_der(self.root_cert)),
+                "signed_by": "sgx_root"}
+
+    def path_from_root(self):
+        return list(reversed(self.chain)) + ["attestation", "quote"]
+
+    def expected_quote_dict(self):
+        rb = dict(self.q_rb_fields)
+        return {"header": self.q_hdr, "report_body": rb}
